@@ -51,13 +51,16 @@ class EventBase(ObjectWithFields):
 
     @staticmethod
     def int_or_default_from_string(default: int,
-                                   minimum: int | None = None) -> Callable[[str], int]:
+                                   minimum: int | None = None,
+                                   maximum: int | None = None) -> Callable[[str], int]:
         def int_or_default(value: str):
             value = DashOption.int_or_none_from_string(value)
             if value is None:
                 return default
             if minimum is not None and value < minimum:
                 raise ValueError(f'value must be at least {minimum}')
+            if maximum is not None and value > maximum:
+                raise ValueError(f'value must be at most {maximum}')
             return value
         return int_or_default
 
@@ -86,7 +89,14 @@ class EventBase(ObjectWithFields):
                 # a repeat interval or timescale of zero (or less) would make
                 # event generation loop forever or divide by zero
                 minimum = 1 if key in {'interval', 'timescale'} else None
-                from_string = cls.int_or_default_from_string(dflt, minimum)
+                maximum = None
+                if key == 'version':
+                    # the emsg box only defines versions 0 and 1
+                    minimum, maximum = 0, 1
+                elif key == 'program_id':
+                    # SCTE35 unique_program_id is a 16 bit field
+                    minimum, maximum = 0, 0xFFFF
+                from_string = cls.int_or_default_from_string(dflt, minimum, maximum)
                 input_type = 'number'
                 cgi_type = '<int>'
                 cgi_choices = tuple([str(dflt)])
